@@ -629,3 +629,14 @@ PROP = with_src(PROP, share=10, functions=["_Validator._process_description_cont
 PROP = with_src(PROP, share=10, functions=["_Validator.__get__"], module="PkgProofs.Props.Src.MetaGet",
                 theorems=["Src._Validator.__get___translated", "Src._Validator._process__dyn_eq", "Src.procSrc_eq_model",
                           "Src._Validator.__get___eq_model", "Src._Validator.__get___no_converter"])
+# x7: the entry points — `InvalidMetadata.__init__`, `_Validator._invalid_metadata`, `Metadata.from_raw`, `Metadata.from_email` — with
+# exceptions as objects (`PyX7.MX`), the class's descriptor table generated from the class and the descriptor protocol behind
+# `ins.metadata_version` / `getattr(ins, key)` (through the translated `_Validator.__get__`); proved equal to Meta.fromRaw / Meta.fromEmail
+# for the visiting order the code computes (`Src.ksOf`, a permutation of Meta.fieldsToCheck: `Src.ksOf_perm`), for dict data of the
+# types RawMetadata declares (`Src.WellTyped`), up to look-ups (`Src.InstRel`); `parse_email` answers `from_email` through the oracle
+PROP = with_src(PROP, share=10,
+                functions=["InvalidMetadata.__init__", "_Validator._invalid_metadata", "Metadata.from_raw", "Metadata.from_email"],
+                module=["PkgProofs.Props.Src.MetaFrom"],
+                theorems=["Src.from_translated", "Src.InvalidMetadata.__init___eq_model", "Src._Validator._invalid_metadata_eq_model",
+                          "Src.descriptors_all", "Src.descriptors_eq", "Src.Metadata.__getattr__dyn_eq_model",
+                          "Src.Metadata.from_raw_eq_model", "Src.ksOf_perm", "Src.Metadata.from_email_eq_model"])
